@@ -217,6 +217,7 @@ class Sys:
             out.append(("attr_shared",))
             out.append(("attr_link",))
             out.append(("attr_tuple_cycle",))
+            out.append(("attr_shared_empty",))
         return out
 
     def apply(self, w, op):
@@ -242,6 +243,16 @@ class Sys:
             w.v[0].sh = shared
             w.v[1].sh = shared
             w.v[1].d = {"k": shared}
+            return ("ret", None)
+        if k == "attr_shared_empty":
+            # EMPTY containers shared by two owners / by two attributes of one (linked) vertex
+            e, d, st = [], {}, set()
+            w.v[0].e = e
+            w.v[1].e = e
+            w.v[0].d1 = d
+            w.v[0].d2 = d
+            w.v[0].st = st
+            w.v[1].st = st
             return ("ret", None)
         if k == "attr_tuple_cycle":
             # a tuple that takes part in a cycle through a mutable: l = []; t = (l,); l.append(t)
@@ -288,6 +299,8 @@ def attr_kinds(w):
             kinds.add("shared-list")
         if "cyc" in d:
             kinds.add("tuple-cycle")
+        if "e" in d:
+            kinds.add("shared-empty")
     if any("peer" in vars(l) for l in w.l):
         kinds.add("link-attr")
     return "+".join(sorted(kinds)) or "none"
